@@ -1,6 +1,6 @@
 SPECIFICATION Spec
 CONSTANTS NW = 1  NR = 1  MaxW = 1  MaxI = 1  MaxJ = 0  JunkLens <- JL1
-  UseWMu = TRUE  UseRMu = TRUE  UseLk = FALSE  DeobfInLock = TRUE  JunkRetry = TRUE  UnlockOnRetry = TRUE  KeyOwned = TRUE
+  UseWMu = TRUE  UseRMu = TRUE  UseLk = TRUE  DeobfInLock = TRUE  JunkRetry = TRUE  UnlockOnRetry = TRUE  KeyOwned = FALSE
 INVARIANT NoViolation
 
 VIEW View
